@@ -29,7 +29,8 @@ RULE = ('tables of 2-6 columns x 30-300 rows drawn from a Gaussian copula: a ran
         'families (normal, beta, gamma, uniform, Student t, log-Laplace, truncated normal, a bimodal law for the KDE), '
         'plus constant columns (about 1 table in 3 has one), integer-rounded columns and, in about 1 table in 4, a '
         'NON-constant column on an awkward scale (epoch seconds spread over hours, 1000 + 1e-3 y, readings ~1e-9: range '
-        'below 1e-5 of the magnitude or below 1e-8 absolute); labels are shuffled strings '
+        'below 1e-5 of the magnitude or below 1e-8 absolute) and, with probability 0.06 per column, a GaussianKDE-modelled '
+        'column at an extreme magnitude (farad 2.2e-11 +- 3e-12, ~1e-6, ~3e6, 1e9 offset +- 50..400); labels are shuffled strings '
         '(incl. spaces / non-ASCII / "0") or unsorted ints; crossed with the five configuration forms (default '
         'Univariate selection [sparingly: 8 candidate fits per column], a class, a fully-qualified-name string, an '
         'instance, a per-column dict of classes/strings/instances whose KEY ORDER and coverage vary: table order, reversed, '
@@ -43,7 +44,10 @@ RULE = ('tables of 2-6 columns x 30-300 rows drawn from a Gaussian copula: a ran
         '(run in the quick tier too) adds: the C01 oracle against the fitted marginals and against the TRAINING data '
         '(no non-constant column sampled constant, sample inside the extended training range, two-sample KS for '
         'dependable families), model.correlation vs the normal-score correlation, seed hunts for extreme draws, '
-        'scale-stress tables, and a Gaussian-copula table with a strongly dependent pair next to a constant column')
+        'scale-stress tables, a Gaussian-copula table with a strongly dependent pair next to a constant column, dict-shape '
+        'tables, and tables of GaussianKDE columns at extreme scales whose sampled cells are compared with an '
+        'independent float64 bisection of the fitted cdf (deterministic; also applied to every KDE-backed column of '
+        'every other search sample)')
 PARTIAL = [
     'dependence_value_partial: that standard normal draws with correlation rho have Kendall tau (2/pi) asin(rho) is '
     'Sheppard\'s theorem about the bivariate normal law; not proved (search: Hoeffding band).  Proved instead: the '
@@ -85,8 +89,11 @@ FQN = {'GaussianUnivariate': 'copulas.univariate.gaussian.GaussianUnivariate',
 KIND2CLASS = {'gaussian': 'GaussianUnivariate', 'beta': 'BetaUnivariate', 'gamma': 'GammaUnivariate',
               'uniform': 'UniformUnivariate', 'student_t': 'StudentTUnivariate', 'log_laplace': 'LogLaplace',
               'truncated': 'TruncatedGaussian', 'kde': 'GaussianKDE', 'ints': 'GaussianKDE', 'const': 'GaussianUnivariate',
-              'near_epoch': 'GaussianUnivariate', 'near_kilo': 'GaussianUnivariate', 'near_tiny': 'GaussianUnivariate'}
+              'near_epoch': 'GaussianUnivariate', 'near_kilo': 'GaussianUnivariate', 'near_tiny': 'GaussianUnivariate',
+              'kde_farad': 'GaussianKDE', 'kde_micro': 'GaussianKDE', 'kde_mega': 'GaussianKDE', 'kde_giga': 'GaussianKDE'}
 NEAR = ('near_epoch', 'near_kilo', 'near_tiny')
+# KDE-modelled columns at extreme magnitudes / scales (SI base units, large offsets with a small spread)
+XSCALE = ('kde_farad', 'kde_micro', 'kde_mega', 'kde_giga')
 # families whose fit cannot collapse on a column with > 1 distinct values (moment / range / kernel estimates)
 ROBUST = ('GaussianUnivariate', 'UniformUnivariate', 'GaussianKDE')
 FAST = ('GaussianUnivariate', 'UniformUnivariate', 'GammaUnivariate', 'GaussianKDE', 'LogLaplace')
@@ -150,6 +157,17 @@ def marginal(rng, kind):
     if kind == 'kde':
         w = rng.choice([1.5, 2.5])
         return (lambda z: loc + scale * (z + w * np.tanh(2.0 * z))), f'bimodal({w})'
+    if kind == 'kde_farad':       # capacitance in farad: 2.2e-11 +- 3e-12 (absolute spread far below 1e-8)
+        w = rng.choice([3e-12, 5e-12])
+        return (lambda z: 2.2e-11 + w * z), f'farad(2.2e-11,{w})'
+    if kind == 'kde_micro':       # ~1e-6 with a bimodal shape
+        m = rng.choice([4.7e-6, 1e-6])
+        return (lambda z: m + 0.1 * m * (z + 1.5 * np.tanh(2.0 * z))), f'micro({m})'
+    if kind == 'kde_mega':        # ~1e6
+        return (lambda z: 3e6 + 2e5 * (z + 1.5 * np.tanh(2.0 * z))), 'mega(3e6,2e5)'
+    if kind == 'kde_giga':        # 1e9 offset with a small spread (relative spread ~1e-7 .. 1e-6)
+        w = rng.choice([50.0, 400.0])
+        return (lambda z: 1e9 + w * z), f'giga(1e9,{w})'
     if kind == 'near_epoch':      # epoch seconds spread over a few hours: range / magnitude ~ 5e-6
         w = rng.choice([600.0, 1500.0, 2500.0])
         return (lambda z: 1.7e9 + w * z), f'epoch(1.7e9,{w})'
@@ -188,6 +206,8 @@ def gen_table(rng, nr, rows=None, allow_kde=True):
         kind = rng.choice(kinds_pool)
         if near_at == j:
             kind = rng.choice(NEAR)
+        elif allow_kde and rng.random() < 0.06:
+            kind = rng.choice(XSCALE)
         q, d = marginal(rng, kind)
         x = np.asarray(q(Z[:, j]), dtype=float)
         if kind == 'ints' and np.all(x == x[0]):
@@ -542,9 +562,15 @@ def numeric_slack(train):
     cancellation error of ~1e-5; that is binary64 conditioning of a legal fit, not a broken quantile pair."""
     t = np.asarray(train, dtype=float)
     mag = max(abs(float(t.max())), abs(float(t.min())), 1e-300)
+    # GaussianKDE.percent_point's root finder stops at |dx| <= 2 eps |x| + 2 eps (its documented defaults): in
+    # probability units that is ~ tolerance / std.  Only matters below ~1e-10 absolute spread (2.2e-11 +- 3e-12 F:
+    # 3e-4) and for offsets above ~1e10 times the spread.
+    eps = float(np.finfo(float).eps)
+    sd = float(np.std(t))
+    solver = 2.0 * (2 * eps * mag + 2 * eps) / sd if sd > 0 else 0.0
     if (float(t.max()) - float(t.min())) / mag >= 1e-3:
-        return 1e-6, 1e-4
-    return 1e-3, 2e-3
+        return max(1e-6, solver), max(1e-4, solver)
+    return max(1e-3, solver), max(2e-3, solver)
 
 
 def ulp_nbhd(x, k=4):
@@ -552,6 +578,62 @@ def ulp_nbhd(x, k=4):
     x = np.asarray(x, dtype=float)
     h = k * np.spacing(np.abs(x))
     return x - h, x + h
+
+
+def ref_inverse(cdf, u, lo, hi, iters=64):
+    """independent inversion of a fitted cdf: plain float64 bisection on cdf(x) - u over [lo, hi]."""
+    lo = np.full(u.shape, lo, dtype=float)
+    hi = np.full(u.shape, hi, dtype=float)
+    for _ in range(iters):
+        mid = 0.5 * (lo + hi)
+        up = (np.asarray(cdf(mid), dtype=float) - u) < 0
+        lo = np.where(up, mid, lo)
+        hi = np.where(up, hi, mid)
+    return 0.5 * (lo + hi)
+
+
+def kde_inversion_problems(case, unis, out, draws, max_rows=600):
+    """deterministic oracle for the columns modelled by GaussianKDE (whose percent_point is Copulas' OWN root
+    finder): the sampled cell must be the quantile of the fitted KDE at u = Phi(normal draw), as computed by an
+    independent bisection of `univariate.cdf`, in the column's own scale:
+        |x - x_ref| <= 1e-6 * (training max - min)   or   |cdf(x) - u| <= max(2e-4, solver tolerance in probability)
+    (the second alternative covers flat stretches of the cdf, where the root is ill-determined in x but the
+    distribution is not affected), and the sampled column must not be quantised: >= 98% distinct values.
+    -> list of (column, observed)"""
+    probs = []
+    d = len(case['labels'])
+    if draws is None or getattr(draws, 'shape', None) != (len(out), d):
+        return probs
+    eps32 = float(np.finfo(np.float32).eps)
+    for j in range(min(d, len(unis))):
+        tr = np.asarray(case['cols'][j], dtype=float)
+        if not kde_backed(unis[j]) or np.all(tr == tr[0]):
+            continue
+        x = out.iloc[:max_rows, j].to_numpy()
+        u = st.norm.cdf(draws[:max_rows, j])
+        ok = np.isfinite(x) & (u > eps32) & (u < 1 - eps32)        # beyond: the recorded kde-tail-infinite finding
+        if ok.sum() == 0:
+            continue
+        x, u = x[ok], u[ok]
+        R = float(tr.max() - tr.min())
+        ref = ref_inverse(unis[j].cdf, u, tr.min() - 8 * R, tr.max() + 8 * R)
+        err = np.abs(x - ref) / R
+        res = np.abs(np.asarray(unis[j].cdf(x), dtype=float) - u)
+        tol_p = max(2e-4, numeric_slack(tr)[0])
+        bad = (err > 1e-6) & ~(res <= tol_p)
+        distinct = int(len(np.unique(x)))
+        if bad.any() or (len(x) >= 20 and distinct < 0.98 * len(x)):
+            i = int(np.argmax(np.where(bad, res, -1.0))) if bad.any() else 0
+            probs.append((j, {'cells_checked': int(len(x)), 'cells_off': int(bad.sum()), 'distinct_values': distinct,
+                              'worst': {'u': float(u[i]), 'sampled': float(x[i]), 'independent_inverse': float(ref[i]),
+                                        'error_in_training_ranges': float(err[i]), 'cdf_residual': float(res[i])},
+                              'training_min_max': [float(tr.min()), float(tr.max())],
+                              'univariate': type(unis[j]).__name__ + '>' + type(getattr(unis[j], '_instance', None)).__name__}))
+    return probs
+
+
+KDE_INV_REQ = ('a GaussianKDE-modelled column is percent_point(Phi(draw)): within 1e-6 training ranges of an independent '
+               'bisection of the fitted cdf (or cdf residual <= 2e-4), and not quantised (>= 98% distinct values)')
 
 
 def ks_two_sample(a, b):
@@ -814,7 +896,12 @@ def tie_case(ctx, lean, case, ns, note):
         if len(nonconst) >= 2 and 2 <= n <= 120:
             j, k = nonconst[0], nonconst[-1]
             oj, ok_ = out.iloc[:, j].to_numpy(), out.iloc[:, k].to_numpy()
-            if len(np.unique(oj)) == len(np.unique(draws[:, j])) and len(np.unique(ok_)) == len(np.unique(draws[:, k])):
+            # a numerically inverted marginal (GaussianKDE) is strictly increasing only up to the root finder's stopping
+            # tolerance; the hypothesis `StrictMono (ppf o Phi)` is checked on the actual cells before it is used
+            mono = all(np.all(np.diff(o_[np.argsort(draws[:, c_], kind='stable')]) > 0) for o_, c_ in ((oj, j), (ok_, k)))
+            if not mono and (kde_backed(unis[j]) or kde_backed(unis[k])):
+                ctx.count('kendall-sample-skipped-kde-not-strictly-monotone')
+            elif len(np.unique(oj)) == len(np.unique(draws[:, j])) and len(np.unique(ok_)) == len(np.unique(draws[:, k])):
                 r1 = lean.ask('gs kendall %d ' % n + ' '.join(vc.f2h(a) + ' ' + vc.f2h(b) for a, b in zip(oj, ok_)))
                 r2 = lean.ask('gs kendall %d ' % n + ' '.join(vc.f2h(a) + ' ' + vc.f2h(b) for a, b in zip(draws[:, j], draws[:, k])))
                 ctx.count('kendall-sample-pairs')
@@ -939,6 +1026,12 @@ def search(ctx, deep):
         oracle_case(ctx, case, stats, schema_ns=[rng2.randint(2, 200)], big=True, light=not deep)
     for t in range((3 if quick else 8) if deep else 1):
         dependence_oracle(ctx, dependence_case(rng2, nr2), stats)
+    # GaussianKDE-modelled columns at extreme magnitudes / scales: independent inversion of the fitted cdf
+    rng4 = ctx.rng('search', 'kde-scales')
+    nr4 = ctx.nprng('search', 'kde-scales')
+    for t in range((4 if quick else 10) if deep else 2):
+        stats['kde_scale_tables'] = stats.get('kde_scale_tables', 0) + 1
+        oracle_case(ctx, kde_scale_case(rng4, nr4), stats, schema_ns=[rng4.randint(100, 400)], big=deep, light=True)
     # per-column dicts whose key order / coverage differs from the table's column order: schema only (cheap)
     rng3 = ctx.rng('search', 'dict-shapes')
     nr3 = ctx.nprng('search', 'dict-shapes')
@@ -1016,6 +1109,35 @@ def dict_shape_cases(rng, nr):
         out.append({'labels': labels, 'cols': [c.tolist() for c in cols], 'kinds': kinds, 'descr': descr,
                     'config': spec, 'seed': ['int', rng.randrange(2 ** 31)], 'ndarray': nd})
     return out
+
+
+def kde_scale_case(rng, nr):
+    """a table whose GaussianKDE-modelled columns live at extreme magnitudes / scales (farad ~2e-11, ~1e-6, ~1e6, a
+    1e9 offset with a small spread), next to an ordinary column; KDE requested per column or for the whole table."""
+    n = rng.choice([60, 150, 300])
+    kinds = list(XSCALE)
+    rng.shuffle(kinds)
+    kinds = ['kde_farad'] + [k_ for k_ in kinds if k_ != 'kde_farad'][:rng.choice([1, 2])] + ['gaussian']
+    rng.shuffle(kinds)
+    R, L = random_correlation(rng, nr, len(kinds))
+    Z = nr.randn(n, len(kinds)) @ L.T
+    cols, descr = [], []
+    for j, kd in enumerate(kinds):
+        q, dsc = marginal(rng, kd)
+        cols.append(np.asarray(q(Z[:, j]), dtype=float))
+        descr.append(dsc)
+    labels = rng.sample(['capacitance', 'current', 'count', 'offset', 'score', 'x', 5, 11, 2, 30], len(kinds))
+    if not all(isinstance(x, int) for x in labels):
+        labels = [str(x) for x in labels]
+    form = rng.choice(['class', 'str', 'inst', 'dict', 'dict'])
+    if form == 'dict':
+        spec = ['dict', shape_dict(rng, [[enc_label(lab), [rng.choice(['class', 'str', 'inst']), KIND2CLASS[kd]]]
+                                         for lab, kd in zip(labels, kinds)],
+                                   rng.choice(['full-in-order', 'full-reversed', 'full-shuffled']))]
+    else:
+        spec = [form, 'GaussianKDE']
+    return {'labels': labels, 'cols': [c.tolist() for c in cols], 'kinds': kinds, 'descr': descr, 'config': spec,
+            'seed': ['int', rng.randrange(2 ** 31)], 'ndarray': False}
 
 
 def scale_stress_case(rng, nr, deep):
@@ -1252,6 +1374,12 @@ def oracle_case(ctx, case, stats, schema_ns, big, only=None, hunt=0, light=False
             ctx.fail_input(ep, case_input(case, n=n), obs,
                            'exactly n rows, the training labels in training order, finite float columns (no NaN / inf), '
                            'constant training columns reproduced exactly', f'{ep}:schema-{what}')
+        if len(calls) == 1 and [enc_label(c) for c in (model.columns or [])] == [enc_label(x) for x in case['labels']] \
+                and isinstance(out, pd.DataFrame) and out.shape == (n, d):
+            for j, obs in kde_inversion_problems(case, unis, out, calls[0]['out']):
+                stats['kde_inversion_failures'] = stats.get('kde_inversion_failures', 0) + 1
+                ctx.fail_input(ep, case_input(case, n=n, column=j), obs, KDE_INV_REQ, f'{ep}:kde-column-quantised')
+            stats['kde_inversion_checks'] = stats.get('kde_inversion_checks', 0) + sum(1 for u_ in unis if kde_backed(u_))
     if not columns_in_table_order(ctx, case, model, N_BIG if big else None):
         return
     if hunt:
@@ -1289,6 +1417,11 @@ def oracle_case(ctx, case, stats, schema_ns, big, only=None, hunt=0, light=False
                            'GaussianMultivariate.' + what)
         else:
             ctx.fail_input(ep, case_input(case, n=n, column=j), obs, req, f'{ep}:{what}')
+    dr_ = calls[0]['out'] if len(calls) == 1 and calls[0]['out'].shape == (n, d) else None
+    for j, obs in kde_inversion_problems(case, unis, out, dr_):
+        stats['kde_inversion_failures'] = stats.get('kde_inversion_failures', 0) + 1
+        ctx.fail_input(ep, case_input(case, n=n, column=j), obs, KDE_INV_REQ, f'{ep}:kde-column-quantised')
+    stats['kde_inversion_checks'] = stats.get('kde_inversion_checks', 0) + sum(1 for u_ in unis if kde_backed(u_))
     stats['correlation_entry_checks'] = stats.get('correlation_entry_checks', 0) + 1
     for pair, obs in correlation_entry_problems(case, model, unis, nonconst):
         ctx.fail_input('GaussianMultivariate.fit', case_input(case, n=N_BIG, columns=pair), obs,
@@ -1315,13 +1448,38 @@ def oracle_case(ctx, case, stats, schema_ns, big, only=None, hunt=0, light=False
     cov = model.correlation.to_numpy()
     teps = hoeffding_tau_eps(n) + 2e-3
     # dependence
+    noisy = {}            # KDE-backed column -> number of pairs inverted within the root finder's stopping tolerance
     for j in nonconst:
         order = np.argsort(draws[:, j], kind='stable')
         stats['rank_preservation'] += 1
-        if not np.all(np.diff(cols[j][order]) >= 0):
-            ctx.fail_input(ep, case_input(case, n=n, column=j), 'sampled column is not a non-decreasing function of its '
-                           'normal draw', 'column j = percent_point_j(Phi(draw_j)), non-decreasing in the draw',
-                           f'{ep}:rank-preservation')
+        steps = np.diff(cols[j][order])
+        if not np.all(steps >= 0):
+            # precise class for ONE situation: a GaussianKDE-backed column whose every backward step is within the root
+            # finder's own stopping tolerance (|dx| <= 2 eps |x| + 2 eps, absolute — not scaled to the column): at a
+            # tiny absolute spread (farad-sized values) that tolerance exceeds the gap between neighbouring quantiles,
+            # so the sampled column is a NOISY, not a monotone, function of its draw.  Anything larger is the generic class.
+            eps_ = float(np.finfo(float).eps)
+            xs = cols[j][order]
+            bound = 8.0 * (2 * eps_ * np.maximum(np.abs(xs[1:]), np.abs(xs[:-1])) + 2 * eps_)
+            backward = steps < 0
+            within = bool(np.all(-steps[backward] <= bound[backward]))
+            if kde_backed(unis[j]) and within:
+                # NOT a failure of C01 (its dependence clause is distributional): tolerated, counted, one sample kept.
+                tot_ = n * (n - 1) // 2
+                tau_self = float(st.kendalltau(draws[:, j], cols[j]).statistic)
+                inv = int(round(tot_ * (1.0 - tau_self) / 2.0)) if tau_self == tau_self else int(backward.sum())
+                noisy[j] = max(inv, int(backward.sum()))
+                ctx.count('kde-rank-noise-within-solver-tolerance')
+                stats['kde_rank_noise_tolerated'] = stats.get('kde_rank_noise_tolerated', 0) + 1
+                ctx.sample({'kde-rank-noise-within-solver-tolerance': {
+                    'kinds': case['kinds'], 'column': j, 'n': n, 'backward_steps': int(backward.sum()),
+                    'inverted_pairs': noisy[j], 'largest_backward_step': float((-steps[backward]).max()),
+                    'solver_stopping_tolerance': float(bound[backward].max() / 8.0),
+                    'training_std': float(np.std(np.asarray(case['cols'][j], dtype=float)))}}, cap=8)
+            else:
+                ctx.fail_input(ep, case_input(case, n=n, column=j), 'sampled column is not a non-decreasing function of '
+                               'its normal draw', 'column j = percent_point_j(Phi(draw_j)), non-decreasing in the draw',
+                               f'{ep}:rank-preservation')
     for a in range(len(nonconst)):
         for b in range(a + 1, len(nonconst)):
             j, k = nonconst[a], nonconst[b]
@@ -1333,7 +1491,11 @@ def oracle_case(ctx, case, stats, schema_ns, big, only=None, hunt=0, light=False
                 len(np.unique(draws[:, j])) == n and len(np.unique(draws[:, k])) == n
             if noties:
                 stats['kendall_exact'] += 1
-                if tau_out != tau_z:
+                # exact equality; a pair inverted inside a tolerated KDE column moves C - D by at most 2
+                slack = 0.0
+                if j in noisy or k in noisy:
+                    slack = 2.0 * (noisy.get(j, 0) + noisy.get(k, 0)) / (n * (n - 1) / 2.0) + 1e-12
+                if abs(tau_out - tau_z) > slack:
                     ctx.fail_input(ep, case_input(case, n=n, columns=[j, k]), {'tau_sampled': tau_out, 'tau_draws': tau_z},
                                    'Kendall tau of the sampled pair == Kendall tau of the normal draws (exactly)',
                                    f'{ep}:kendall-exact')
